@@ -104,13 +104,16 @@ def alphas(tiny=False):
     return st.one_of(*base)
 
 
-def make_dataset(shape, kinds, values, errors, name='ds'):
-    """Dataset from flat lists; shape [] gives a scalar (numpy.float64) dataset."""
+def make_dataset(shape, kinds, values, errors, name='ds', layout='C'):
+    """Dataset from flat lists; shape [] gives a scalar (numpy.float64) dataset.  ``layout``
+    'F': the same numbers in Fortran memory order (what a transposed view has)."""
     shape = tuple(shape)
     if not shape:
         return Dataset(np.float64(values[0]), np.float64(errors[0]), name=name, what='w')
     val = np.array(values, dtype=float).reshape(shape)
     err = np.array(errors, dtype=float).reshape(shape)
+    if layout == 'F':
+        val, err = np.asfortranarray(val), np.asfortranarray(err)
     bins = dsutil.make_bins(shape, kinds) if kinds else None
     return Dataset(val, err, bins=bins, name=name, what='w')
 
